@@ -2939,6 +2939,9 @@ bool SGXMLScanner::normalizeAttValue( const   XMLAttDef* const    attDef
             nextCh = *srcPtr;
 
             // Do we have an escaped character ?
+            //  A character that came from a character reference is not white
+            //  space to be collapsed unless it is a #x20 (XML 1.0, section 3.3.3).
+            const bool escaped = (nextCh == 0xFFFF);
             if (nextCh == 0xFFFF)
             {
                 nextCh = *++srcPtr;
@@ -2957,7 +2960,7 @@ bool SGXMLScanner::normalizeAttValue( const   XMLAttDef* const    attDef
 
             if (curState == InWhitespace)
             {
-                if (!fReaderMgr.getCurrentReader()->isWhitespace(nextCh))
+                if ((escaped && nextCh != chSpace) || !fReaderMgr.getCurrentReader()->isWhitespace(nextCh))
                 {
                     if (firstNonWS)
                         toFill.append(chSpace);
@@ -2972,7 +2975,7 @@ bool SGXMLScanner::normalizeAttValue( const   XMLAttDef* const    attDef
             }
             else if (curState == InContent)
             {
-                if (fReaderMgr.getCurrentReader()->isWhitespace(nextCh))
+                if ((nextCh == chSpace) || (fReaderMgr.getCurrentReader()->isWhitespace(nextCh) && !escaped))
                 {
                     curState = InWhitespace;
                     srcPtr++;
